@@ -393,7 +393,7 @@ func mutations(seed string) [][]byte {
 }
 
 func run(c *enum.Ctx) {
-	c.Rule("per format (FASTA, FASTQ, BED3/4/5/6/12, GFF): (a) every sequence of <=3 (thorough 4) line tokens from an alphabet of 10-30 line shapes (valid lines and every invalid shape the statement lists), each with and without a final newline and with CRLF; (b) every byte string of length <=4 (thorough 5) over 15 structural bytes; (c) every single mutation (thorough: every pair) of a valid seed file: delete/duplicate a line, delete/duplicate/replace a column by {'',0,-1,2^63,x,1e3,' '}, truncate at every byte offset; oracle: no panic, every call returns a record or an error, io.EOF or an error within lines+1 calls, and inputs with an invalid line of a listed kind end in a non-EOF error; (d) FASTQ files of <=3 (4) four-line groups over 7 letters/qualities shapes x 2 '+'-line styles, read on past errors: every record that comes back is its own group and no group with differing lengths ever comes back; distinct = distinct inputs; non-trivial = inputs with at least one complete line")
+	c.Rule("per format (FASTA, FASTQ with a Sanger, a Solexa and an Illumina 1.3 template, BED3/4/5/6/12, GFF): (a) every sequence of <=3 (thorough 4) line tokens from an alphabet of 10-30 line shapes (valid lines and every invalid shape the statement lists), each with and without a final newline and with CRLF; (b) every byte string of length <=4 (thorough 5) over 15 structural bytes; (c) every single mutation (thorough: every pair) of a valid seed file: delete/duplicate a line, delete/duplicate/replace a column by {'',0,-1,2^63,x,1e3,' '}, truncate at every byte offset; oracle: no panic, every call returns a record or an error, io.EOF or an error within lines+1 calls, and inputs with an invalid line of a listed kind end in a non-EOF error; (d) FASTQ files of <=3 (4) four-line groups over 7 letters/qualities shapes x 2 '+'-line styles, read on past errors: every record that comes back is its own group and no group with differing lengths ever comes back; distinct = distinct inputs; non-trivial = inputs with at least one complete line")
 	c.Assume("a hang is detected by a progress watchdog and confirmed by re-running the single input in a child process before it is reported")
 	depth, blen := 3, 4
 	if !c.Quick {
